@@ -102,14 +102,102 @@ _ALLOWED_STMT = {'CompoundStmt', 'DeclStmt', 'ExprWithCleanups', 'CXXOperatorCal
                  'CXXMemberCallExpr', 'CallExpr', 'NullStmt', 'ReturnStmt'}
 
 
+def _clone_site(s, parts):
+    c = sites.Site()
+    for a in sites.Site.__slots__:
+        try:
+            setattr(c, a, getattr(s, a))
+        except AttributeError:
+            pass
+    c.sql_parts = sites._merge(parts)
+    return c
+
+
+def _subst_parts(parts, binding):
+    """Replace the holes of an SQL text that name a parameter of the helper being executed by
+    the text the caller passed for it (already resolved in the caller's own frame)."""
+    out = []
+    changed = False
+    for p in parts:
+        if not isinstance(p, str):
+            ref = (strip(p.node, explicit=True).get('referencedDecl') or {}).get('id')
+            if ref is not None and ref in binding:
+                out.extend(binding[ref])
+                changed = True
+                continue
+        out.append(p)
+    return out, changed
+
+
+def _issues_sql(prog, func, memo, depth=0):
+    """Does this repository function (or one it calls) contain a statement site?"""
+    if func.key in memo:
+        return memo[func.key]
+    memo[func.key] = False
+    r = bool(sites.find_sites(func))
+    if not r and depth < 5 and func.body is not None:
+        for n in walk(func.body):
+            if n.get('kind') in ('CallExpr', 'CXXMemberCallExpr'):
+                t = _repo_callee(prog, func, n)
+                if t is not None and _issues_sql(prog, t, memo, depth + 1):
+                    r = True
+                    break
+    memo[func.key] = r
+    return r
+
+
+def _repo_callee(prog, func, call):
+    try:
+        d, q, _, _ = prog.resolve_callee(func.tu, call)
+    except Exception:
+        return None
+    if d is None or not q:
+        return None
+    fs = [f for f in prog.definitions_for(func.tu, d, q)
+          if f.body is not None and not f.is_pattern and prog.in_repo(f.file)]
+    return fs[0] if len(fs) == 1 else None
+
+
 def creation_trace(prog, cls, entry='create'):
     """Straight-line interpretation of cls::create: ordered list of Exec.
-    Any control flow in a creator is outside the modelled subset."""
+    Any control flow in a creator is outside the modelled subset.  Calls are followed into
+    the member functions of the class (virtual ones resolved for the dynamic type cls) and into
+    every other repository function that issues SQL (a file-local or static helper that two
+    sibling creators share); SQL text a helper assembles from a parameter is read with the
+    argument of the call in its place."""
     out = []
+    sql_memo = {}
 
-    def run(func, depth, frames=()):
+    def emit(s, func, frames, binding):
+        if binding:
+            parts, changed = _subst_parts(s.sql_parts, binding)
+            if changed:
+                s = _clone_site(s, parts)
+        try:
+            st = sql.parse(s.text)
+        except sql.SqlError as e:
+            raise AnalysisBroken('cannot read SQL at %s: %s' % (locstr(s.node), e))
+        st._site = s
+        out.append(Exec(s, st, func, frames))
+
+    def bind_args(func, target, call, binding):
+        """parameter id of target -> SQL text pieces of the argument (string-typed parameters)"""
+        env = sites._string_locals(func)
+        args = children(call)[1:]
+        b = {}
+        for i, p_ in enumerate(target.params):
+            t = (p_.get('dtype') or p_.get('type') or '')
+            if i >= len(args) or not ('string' in t or 'char' in t):
+                continue
+            parts = sites._merge(sites.sql_parts(args[i], env))
+            parts, _ = _subst_parts(parts, binding)
+            b[p_.get('id')] = sites._merge(parts)
+        return b
+
+    def run(func, depth, frames=(), binding=None):
         if depth > 6:
             raise AnalysisBroken('creator call depth exceeded in ' + func.qualname)
+        binding = binding or {}
         body = func.body
         site_by_node = {id(s.node): s for s in sites.find_sites(func)}
         for stmt in children(body):
@@ -121,24 +209,14 @@ def creation_trace(prog, cls, entry='create'):
             n = strip(stmt)
             if id(n) in site_by_node or id(stmt) in site_by_node:
                 s = site_by_node.get(id(n)) or site_by_node.get(id(stmt))
-                try:
-                    st = sql.parse(s.text)
-                except sql.SqlError as e:
-                    raise AnalysisBroken('cannot read SQL at %s: %s' % (locstr(s.node), e))
-                st._site = s
-                out.append(Exec(s, st, func, frames))
+                emit(s, func, frames, binding)
                 continue
             # any site nested deeper (e.g. inside a DeclStmt)?
             nested = [s for s in site_by_node.values()
                       if _contains(stmt, s.node)]
             if nested:
                 for s in nested:
-                    try:
-                        st = sql.parse(s.text)
-                    except sql.SqlError as e:
-                        raise AnalysisBroken('cannot read SQL at %s: %s' % (locstr(s.node), e))
-                    st._site = s
-                    out.append(Exec(s, st, func, frames))
+                    emit(s, func, frames, binding)
                 continue
             if n['kind'] == 'CXXMemberCallExpr':
                 callee = strip(children(n)[0])
@@ -149,10 +227,17 @@ def creation_trace(prog, cls, entry='create'):
                         target = resolve_this_call(prog, cls, func, callee)
                         if target is None:
                             raise AnalysisBroken('cannot resolve %s called from %s' % (name, func.qualname))
-                        run(target, depth + 1, frames + ((func, n),))
+                        run(target, depth + 1, frames + ((func, n),), bind_args(func, target, n, binding))
                         continue
-            # other calls (uuid generation etc.): no SQL effect unless they
-            # contain sites - checked by the effect analysis; ignore here
+            # other calls: followed when the callee is a repository function that issues SQL
+            # (uuid generation etc. has no SQL effect and is not entered)
+            for call in walk(stmt):
+                if call.get('kind') not in ('CallExpr', 'CXXMemberCallExpr'):
+                    continue
+                target = _repo_callee(prog, func, call)
+                if target is None or target.key == func.key or not _issues_sql(prog, target, sql_memo):
+                    continue
+                run(target, depth + 1, frames + ((func, call),), bind_args(func, target, call, binding))
         return
 
     f = final_overrider(prog, cls, entry)
